@@ -27,6 +27,9 @@ var (
 	ErrInvalid      = errors.New("invalid")
 )
 
+// ErrOverflow is returned when an increment or decrement would overflow.
+var ErrOverflow = errors.New("increment or decrement would overflow")
+
 const (
 	errorNotSupportedCommand    = "'%s' is %w"
 	errorMissingCommandArgument = "%s: missing argument (%s) %w"
